@@ -215,6 +215,62 @@ theorem C01_sp_pack (h : Sph) (wf : WF h) (sec user : Bytes) (hs : h.shf = 1) :
     spPack h (some sec) (some user) = .ok (Spec.octets h ++ sec ++ user) := by
   simp [spPack, C01_pack_exact h wf, hs, bind, Except.bind, pure, Except.pure]
 
+/-- generic space packet, the other branches of `SpacePacket.pack()`: without the secondary header
+    flag the secondary header argument is ignored and the packet is header ‖ user data; with the
+    flag and no user data it is header ‖ secondary header; a missing mandatory part is `ValueError` -/
+theorem C01_sp_pack_branches (h : Sph) (wf : WF h) :
+    (h.shf = 0 → ∀ (sec : Option Bytes) (user : Bytes),
+      spPack h sec (some user) = .ok (Spec.octets h ++ user)) ∧
+    (h.shf = 1 → ∀ sec : Bytes, spPack h (some sec) none = .ok (Spec.octets h ++ sec)) ∧
+    (h.shf = 1 → ∀ user : Option Bytes, spPack h none user = .error .value) ∧
+    (h.shf = 0 → ∀ sec : Option Bytes, spPack h sec none = .error .value) := by
+  refine ⟨fun hs sec user => ?_, fun hs sec => ?_, fun hs user => ?_, fun hs sec => ?_⟩
+  · simp [spPack, C01_pack_exact h wf, hs, bind, Except.bind, pure, Except.pure]
+  · simp [spPack, C01_pack_exact h wf, hs, bind, Except.bind, pure, Except.pure]
+  · simp [spPack, C01_pack_exact h wf, hs, bind, Except.bind, throw, throwThe, MonadExceptOf.throw]
+  · simp [spPack, C01_pack_exact h wf, hs, bind, Except.bind, throw, throwThe, MonadExceptOf.throw]
+
+private theorem id0 (v t s a : Nat) (hv : v < 8) (ht : t < 2) (hs : s < 2) (ha : a < 2048) :
+    v % 8 * 32 + t % 2 * 16 + s % 2 * 8 + a / 256 % 8 = (v * 32 + t * 16 + s * 8 + a / 256) % 256 := by omega
+
+/-- `get_space_packet_id_bytes(packet_type, sec_header_flag, apid, version)` returns octets 0 and 1
+    of the standard layout, for every in-range header -/
+theorem C01_id_bytes (h : Sph) (wf : WF h) :
+    ((Spec.octets h).take 2).map (·.toNat) =
+      [(idBytes h.version h.ptype h.shf h.apid).1, (idBytes h.version h.ptype h.shf h.apid).2] := by
+  obtain ⟨hv, ht, hs, ha, _, _, _⟩ := wf
+  simp only [idBytes, Spec.octets, List.take_succ_cons, List.take_zero, List.map_cons, List.map_nil, u8_toNat]
+  rw [id0 _ _ _ _ hv ht hs ha, Nat.mod_mod]
+
+/-- out-of-range arguments are masked, never widened: both results are octets -/
+theorem C01_id_bytes_range (v t s a : Nat) : (idBytes v t s a).1 < 256 ∧ (idBytes v t s a).2 < 256 := by
+  simp only [idBytes]; omega
+
+/-- `get_apid_from_raw_space_packet`, completely: on every buffer of at least 6 octets it returns the
+    11 bits `(raw[0] & 7) << 8 | raw[1]`, below 6 octets it raises `ValueError` -/
+theorem C01_apid_from_raw (d : Bytes) :
+    (∀ h : 6 ≤ d.length, apidFromRaw d = .ok ((d[0]'(by omega)).toNat % 8 * 256 + (d[1]'(by omega)).toNat)) ∧
+    (d.length < 6 → apidFromRaw d = .error .value) := by
+  unfold apidFromRaw
+  refine ⟨fun h => ?_, fun h => ?_⟩
+  · have hl : ¬ d.length < 6 := by omega
+    simp [hl, bind, Except.bind, pure, Except.pure, idx_ok (show 0 < d.length by omega),
+      idx_ok (show 1 < d.length by omega)]
+  · simp [h, throw, throwThe, MonadExceptOf.throw, bind, Except.bind]
+
+/-- it agrees with the header decoder on every buffer the decoder accepts … -/
+theorem C01_apid_from_raw_unpack (d : Bytes) (h : Sph) (hu : Sph.unpack d = .ok h) :
+    apidFromRaw d = .ok h.apid := by
+  by_cases h6 : 6 ≤ d.length
+  · rw [unpack_eq d h6] at hu
+    rw [(C01_apid_from_raw d).1 h6, ← Except.ok.inj hu]
+  · rw [C01_short d (by omega)] at hu; cases hu
+
+/-- … hence returns the APID of every packed header, whatever follows it -/
+theorem C01_apid_from_raw_packed (h : Sph) (wf : WF h) (rest : Bytes) :
+    apidFromRaw (Spec.octets h ++ rest) = .ok h.apid :=
+  C01_apid_from_raw_unpack _ h (C01_unpack_pack h wf rest)
+
 -- non-vacuity: a concrete non-trivial header meets the hypotheses
 example : WF ⟨5, 1, 1, 0x7AB, 2, 0x2BCD, 0xFEDC⟩ := by decide
 example : Spec.octets ⟨5, 1, 1, 0x7AB, 2, 0x2BCD, 0xFEDC⟩ = [0xBF, 0xAB, 0xAB, 0xCD, 0xFE, 0xDC] := by decide
